@@ -220,13 +220,23 @@ def _prg_len(rng, cls, r):
     return {"0": 0, "1": 1, "r-1": r - 1, "r": r, "r+1": r + 1, "2r": 2 * r}[cls]
 
 
+def _len4(rng, lo):
+    """a multiple of 4 in [lo, 60]; the documented extremes (lo and 60) every third draw"""
+    r = rng.randrange(6)
+    if r == 0:
+        return 60
+    if r == 1:
+        return lo
+    return rng.randrange(lo, 61, 4)
+
+
 def gen_script(rng, feat, cfg):
     """1..12 commands, command number fpos is the featured (command, length class); the header's
     preconditions are kept: encrypt/decrypt only in the keyed mode (a keyed restart is inserted when
     needed), |ann|, |key| multiples of 4 up to 60, key empty or >= l/8 octets."""
     l, d, keyed = cfg
-    ann = rb(rng, 4 * rng.randrange(16))
-    key = rb(rng, rng.randrange(l // 8, 61, 4)) if keyed else b""
+    ann = rb(rng, _len4(rng, 0))
+    key = rb(rng, _len4(rng, l // 8)) if keyed else b""
     need_key = feat[0] in ("encrypt", "decrypt")
     ncmd = rng.randrange(1, 12 if (need_key and not keyed) else 13)
     fpos = rng.randrange(ncmd)
@@ -234,8 +244,8 @@ def gen_script(rng, feat, cfg):
     cmds = []
 
     def restart(with_key):
-        a = rb(rng, 4 * rng.randrange(16))
-        k = rb(rng, rng.randrange(l // 8, 61, 4)) if with_key else b""
+        a = rb(rng, _len4(rng, 0))
+        k = rb(rng, _len4(rng, l // 8)) if with_key else b""
         if with_key:
             kd[0] = True
         return ["restart", a, k]
